@@ -288,8 +288,11 @@ def _product(lists, limit):
     return res
 
 
-def _forms(v, mode, limit, child_mode):
+def _forms(v, mode, limit, child_mode, modes=None, path=()):
     """dict marker byte -> list of payload encodings of v under that marker."""
+    if modes is not None:
+        mode = modes.get(path, "one")
+        child_mode = "one"
     k, d = v[0], v[1]
     out = {}
     if k == 'null':
@@ -309,7 +312,7 @@ def _forms(v, mode, limit, child_mode):
             out[0x4c] = [d.to_bytes(8, "big", signed=True)]
         else:
             s = str(d).encode()
-            out[0x48] = [l + s for l in _lengths(len(s), "min" if mode == "min" else "full")]
+            out[0x48] = [l + s for l in _lengths(len(s), "min" if mode in ("min", "one") else "full")]
     elif k == 'dbl':
         f = mv.f64_to_f32_bits(d)
         if f is not None:
@@ -318,16 +321,16 @@ def _forms(v, mode, limit, child_mode):
     elif k == 'str':
         if len(d) == 1 and d[0] < 128:
             out[0x43] = [d]
-        out[0x53] = [l + d for l in _lengths(len(d), "min" if mode == "min" else "full")]
+        out[0x53] = [l + d for l in _lengths(len(d), "min" if mode in ("min", "one") else "full")]
     elif k == 'hp':
-        out[0x48] = [l + d for l in _lengths(len(d), "min" if mode == "min" else "full")]
+        out[0x48] = [l + d for l in _lengths(len(d), "min" if mode in ("min", "one") else "full")]
     elif k == 'arr':
-        out[0x5b] = _array_bodies(d, mode, limit, child_mode)
+        out[0x5b] = _array_bodies(d, mode, limit, child_mode, modes, path)
     elif k == 'obj':
-        out[0x7b] = _object_bodies(d, mode, limit, child_mode)
+        out[0x7b] = _object_bodies(d, mode, limit, child_mode, modes, path)
     else:
         raise ValueError("ref_ubjson cannot encode %r" % (k,))
-    if mode == "min" and k not in ('arr', 'obj'):
+    if mode in ("min", "one") and k not in ('arr', 'obj'):
         # shortest marker only
         best = min(out.items(), key=lambda kv: (len(kv[1][0]), kv[0]))
         out = {best[0]: best[1][:1]}
@@ -338,11 +341,12 @@ def _with_marker(forms, limit):
     return [bytes([m]) + p for m, ps in sorted(forms.items()) for p in ps if 1 + len(p) <= limit]
 
 
-def _array_bodies(items, mode, limit, child_mode):
-    cm2 = "min" if child_mode == "min" else "reduced"
-    forms = [_forms(e, child_mode, limit, "min" if child_mode != "full" else "reduced") for e in items]
+def _array_bodies(items, mode, limit, child_mode, modes=None, path=()):
+    forms = [_forms(e, child_mode, limit, "min" if child_mode != "full" else "reduced", modes, path + (i,)) for i, e in enumerate(items)]
     marked = [_with_marker(f, limit) for f in forms]
     out = _product(marked + [[b"]"]], limit)
+    if mode == "one":
+        return [o for o in out if len(o) <= limit]
     lm = "min" if mode == "min" else "full"
     for l in _lengths(len(items), lm):
         out += _product([[b"#" + l]] + marked, limit)
@@ -362,16 +366,21 @@ def _array_bodies(items, mode, limit, child_mode):
     return [o for o in out if len(o) <= limit]
 
 
-def _object_bodies(items, mode, limit, child_mode):
+def _object_bodies(items, mode, limit, child_mode, modes=None, path=()):
     lm = "min" if mode == "min" else "full"
-    km = "min" if child_mode == "min" else "full"
-    forms = [_forms(v, child_mode, limit, "min" if child_mode != "full" else "reduced") for k, v in items]
-    keys = [[l + k for l in _lengths(len(k), km)] for k, v in items]
+    km = "min" if child_mode in ("min", "one") else "full"
+    forms = [_forms(v, child_mode, limit, "min" if child_mode != "full" else "reduced", modes, path + (i, 'v')) for i, (k, v) in enumerate(items)]
+    keys = []
+    for i, (k, v) in enumerate(items):
+        kmode = km if modes is None else ("min" if modes.get(path + (i, 'k'), "one") == "one" else "full")
+        keys.append([l + k for l in _lengths(len(k), kmode)])
     marked = [_with_marker(f, limit) for f in forms]
     seq = []
     for kk, mm in zip(keys, marked):
         seq += [kk, mm]
     out = _product(seq + [[b"}"]], limit)
+    if mode == "one":
+        return [o for o in out if len(o) <= limit]
     for l in _lengths(len(items), lm):
         out += _product([[b"#" + l]] + seq, limit)
     common = None
@@ -392,12 +401,14 @@ def _object_bodies(items, mode, limit, child_mode):
     return [o for o in out if len(o) <= limit]
 
 
-def encodings(v, mode="full", limit=1 << 30, child_mode=None):
+def encodings(v, mode="full", limit=1 << 30, child_mode=None, modes=None, path=()):
     """Every legal encoding of an encoder-side value: mvtext tuples (no 'bin', no 'half'), integers
-    beyond int64 as high-precision numbers, ('hp', ascii, 0) for an explicit high-precision number."""
+    beyond int64 as high-precision numbers, ('hp', ascii, 0) for an explicit high-precision number.
+    With `modes` (dict path -> mode, default "one" = shortest marker, plain container): per-node choice
+    as in ref_cbor.encodings."""
     if child_mode is None:
         child_mode = "reduced" if mode == "full" else "min"
-    for e in _with_marker(_forms(v, mode, limit, child_mode), limit):
+    for e in _with_marker(_forms(v, mode, limit, child_mode, modes, path), limit):
         yield e
 
 
